@@ -143,10 +143,13 @@ func main() {
 			case w < 58:
 				c = g.spliceCase()
 				o.Count("gen:splice")
-			case w < 64:
+			case w < 63:
 				c = g.equalCase()
 				o.Count("gen:equal")
-			case w < 74:
+			case w < 70:
+				c = g.heapCase()
+				o.Count("gen:heap")
+			case w < 75:
 				c = g.seqCase(r.Range(1, 3))
 				o.Count("gen:seq<=3")
 			case w < 80:
